@@ -255,7 +255,10 @@ def build_proofs(pid: str, timeout: int = 1500) -> ProofResult:
     with build_lock():
         regen_coqproject()
         try:
-            r = _run(["make", "-C", COQ, f"-j{NPROC}", f"{pid}/Property.vo"], timeout=timeout)
+            targets = [f"{pid}/Property.vo"]
+            if os.path.exists(os.path.join(COQ, pid, "Run.v")):
+                targets.append(f"{pid}/Run.vo")
+            r = _run(["make", "-C", COQ, f"-j{NPROC}"] + targets, timeout=timeout)
         except subprocess.TimeoutExpired:
             return ProofResult(False, len(theorems), 0, theorems, {}, "make timed out", cmd,
                                failed_theorems=theorems, wall_s=time.time() - t0)
@@ -334,7 +337,7 @@ def coq_eval(pid: str, header: str, fn: str, terms: list[str], shard: int = 400,
         r = _run(["coqc"] + coq_flags() + ["-w", "-all", "-o", path[:-2] + ".vo", path], timeout=timeout)
         if r.returncode != 0:
             raise RuntimeError(f"model evaluation failed for {path}:\n{r.stdout[-3000:]}")
-        m = re.search(r'^\s*= "(.*)"\s*\n\s*: string', r.stdout, flags=re.S | re.M)
+        m = re.search(r'^\s*= "(.*)"(?:%string)?\s*\n\s*: string', r.stdout, flags=re.S | re.M)
         if not m:
             raise RuntimeError(f"cannot parse coqc output for {path}:\n{r.stdout[-2000:]}")
         return m.group(1).replace('""', '"').split("\n")
